@@ -121,9 +121,9 @@ def main(tier):
     bits = 17 + 19 * 3 + (K['ISAL_DEF_LIT_LEN_SYMBOLS'] + K['ISAL_DEF_DIST_SYMBOLS']) * 7
     RH.check(bits + 64 <= K['ISAL_DEF_MAX_HDR_SIZE'] * 8, 'include/igzip_lib.h:ISAL_DEF_MAX_HDR_SIZE', 'worst-case header %d bits + 64 bits slack exceeds %d bytes' % (bits, K['ISAL_DEF_MAX_HDR_SIZE']),
              sample='%d bits + 64 <= %d' % (bits, K['ISAL_DEF_MAX_HDR_SIZE'] * 8))
-    check_table_cover(rep, mod)
-    check_eob_always(rep, mod)
-    check_useable_schedule(rep, mod, K)
+    rep.attempt(check_table_cover, rep, mod)
+    rep.attempt(check_eob_always, rep, mod)
+    rep.attempt(check_useable_schedule, rep, mod, K)
     return rep.finish()
 
 
